@@ -5,6 +5,10 @@ impl Default for AccountStatus { fn default() -> (r: Self) { AccountStatus::Load
 impl AccountStatus {
     pub uninterp spec fn sd(self) -> AccountStatus;
     pub uninterp spec fn te(self) -> AccountStatus;
+    pub uninterp spec fn cr(self) -> AccountStatus;
+    pub uninterp spec fn ch(self, had_no_nonce_and_code: bool) -> AccountStatus;
+    #[verifier::external_body] pub fn on_created(&self) -> (r: AccountStatus) ensures r == self.cr() { unimplemented!() }
+    #[verifier::external_body] pub fn on_changed(&self, had_no_nonce_and_code: bool) -> (r: AccountStatus) ensures r == self.ch(had_no_nonce_and_code) { unimplemented!() }
     #[verifier::external_body] pub fn on_selfdestructed(&self) -> (r: AccountStatus) ensures r == self.sd() { unimplemented!() }
     #[verifier::external_body] pub fn on_touched_empty_post_eip161(&self) -> (r: AccountStatus) ensures r == self.te() { unimplemented!() }
 }
@@ -37,3 +41,33 @@ proof fn corollary_selfdestruct(a0: CacheAccountInfo, a1: CacheAccountInfo, ra: 
     ensures related(a1, b1), ra is None <==> rb is None,   //@ID corollary_selfdestruct : C10
         ra matches Some(x) ==> (rb matches Some(y) && x.info == y.info && x.status == y.status && x.previous_info == y.previous_info && x.previous_status == y.previous_status && x.storage@ =~= y.storage@ && x.storage_was_destroyed == y.storage_was_destroyed),
 {}
+
+impl AccountInfo {
+    pub uninterp spec fn no_code_and_nonce(&self) -> bool;
+    #[verifier::external_body] pub fn has_no_code_and_nonce(&self) -> (b: bool) ensures b == self.no_code_and_nonce() { unimplemented!() }
+}
+/// the transition produced by creation / change: the new info, the new status, the previous info/status, the
+/// storage argument itself, storage not destroyed
+pub open spec fn update_transition(t: TransitionAccount, new_info: AccountInfo, pre_info: Option<AccountInfo>, pre_status: AccountStatus, post_status: AccountStatus, storage: StorageWithOriginalValues) -> bool {
+    t.info == Some(new_info) && t.status == post_status && t.previous_info == pre_info && t.previous_status == pre_status && t.storage == storage && !t.storage_was_destroyed
+}
+pub open spec fn had_none(pre_info: Option<AccountInfo>) -> bool { match pre_info { Some(i) => i.no_code_and_nonce(), None => false } }
+
+// ---- U256 -> u128 (ruint's TryFrom): succeeds exactly when the high limb is zero ----
+#[derive(Debug)] pub struct FromUintError { pub p: u8 }
+impl TryFrom<U256> for u128 { type Error = FromUintError;
+    #[verifier::external_body] fn try_from(x: U256) -> (r: Result<u128, FromUintError>) { unimplemented!() } }
+impl vstd::std_specs::convert::TryFromSpecImpl<U256> for u128 {
+    open spec fn obeys_try_from_spec() -> bool { true }
+    open spec fn try_from_spec(x: U256) -> Result<u128, FromUintError> { if x.0 == 0 { Ok(x.1) } else { Err(FromUintError { p: 0 }) } }
+}
+impl Default for PlainAccount { #[verifier::external_body] fn default() -> (r: Self) ensures r.info == AccountInfo::dflt() { unimplemented!() } }
+pub open spec fn or_dflt(o: Option<AccountInfo>) -> AccountInfo { match o { Some(a) => a, None => AccountInfo::dflt() } }
+/// the ONE contract of a balance update through account_info_change: every field but the balance kept, the balance
+/// as given, status by on_changed, transition with empty storage
+pub open spec fn balance_update(post: Option<AccountInfo>, post_status: AccountStatus, t: TransitionAccount, pre: Option<AccountInfo>, pre_status: AccountStatus, new_balance: nat) -> bool {
+    post matches Some(n) && n.balance@ == new_balance && n.nonce == or_dflt(pre).nonce && n.code_hash == or_dflt(pre).code_hash && n.code == or_dflt(pre).code
+    && post_status == pre_status.ch(had_none(pre))
+    && t.info == post && t.status == post_status && t.previous_info == pre && t.previous_status == pre_status && t.storage@.len() == 0 && !t.storage_was_destroyed
+}
+pub open spec fn sat_add(a: nat, b: nat) -> nat { if a + b <= u256_max() { a + b } else { u256_max() } }
